@@ -1,14 +1,19 @@
 #!/bin/bash
-# usage: run_on_mutant.sh <seeded-ID> <check> [<check>...]  -- applies seeded/<ID>/patch.diff to /repo,
-# runs the quick checks, reverts /repo. Prints one line per check.
+# usage: run_on_mutant.sh <seeded-ID> <check> [<check>...]
+# Applies seeded/<ID>/patch.diff to a scratch worktree of /repo (never to /repo itself), builds the
+# workers against it (VERIF_REPO) and runs the quick checks. Appends results to seeded/RESULTS.tsv.
 set -uo pipefail
 ID=$1; shift
 cd /verif
-git -C /repo diff --quiet || { echo "/repo is dirty"; exit 2; }
-git -C /repo apply "/verif/seeded/$ID/patch.diff" || { echo "patch does not apply"; exit 2; }
-trap 'git -C /repo checkout -- . ' EXIT
+WT=/root/scratch/mut-$ID
+mkdir -p /root/scratch
+git -C /repo worktree remove --force "$WT" 2>/dev/null; rm -rf "$WT"
+git -C /repo worktree add -q --detach "$WT" HEAD || { echo "cannot create worktree"; exit 2; }
+cleanup() { git -C /repo worktree remove --force "$WT" 2>/dev/null; rm -rf "$WT"; git -C /repo worktree prune; rm -rf /verif/.build/mut-"$ID"; }
+trap cleanup EXIT
+git -C "$WT" apply "/verif/seeded/$ID/patch.diff" || { echo "mutant=$ID patch does not apply to the current tree"; exit 2; }
 for c in "$@"; do
-  out=$(VERIF_EVIDENCE_DIR=/verif/.build/mutant-evidence VERIF_ROOT=/verif timeout 1500 bash scripts/check.sh "$c" quick 2>/dev/null); rc=$?
+  out=$(VERIF_REPO="$WT" VERIF_EVIDENCE_DIR=/verif/.build/mutant-evidence VERIF_ROOT=/verif timeout 1500 bash scripts/check.sh "$c" quick 2>/dev/null); rc=$?
   nv=$(echo "$out" | grep -c '^VIOLATION' || true)
   first=$(echo "$out" | grep -m1 '^VIOLATION' | cut -c1-400)
   echo "mutant=$ID check=$c exit=$rc violations=$nv $first"
